@@ -17,6 +17,7 @@ PROPS = {
             "ChiaModel.C11.encoders_agree", "ChiaModel.C11.clvmBytesLen_ok", "ChiaModel.C11.sanitizeUint_ok",
             "ChiaModel.C11.sanitizeUint_complete", "ChiaModel.C11.sanitizeUint_neg", "ChiaModel.C11.sanitizeUint_err",
             "ChiaModel.C11.sanitizeUint_pos", "ChiaModel.C11.encodeNumber_nonneg",
+            "ChiaModel.C11.canon_unique", "ChiaModel.C11.sanitizeUint_canon",
         ],
         "gen_theorems": ["ChiaModel.C11.u64ToBytes_canon", "ChiaModel.C11.coinIdAmount_canon", "ChiaModel.C11.clvmBytesLen_ok"],
         "level_text": "Proof: the three threshold ladders (u64_to_bytes, Coin::coin_id amount, clvm_bytes_len) are regenerated from the Rust source on every run and proved equal to the canonical minimal two's-complement form for every v < 2^64; sanitize_uint is proved to accept exactly the canonical atoms that fit the width and to classify the rest (negative / redundant zero / positive overflow) without truncation; encode_number proved canonical for non-negative inputs. Loop-based codecs are hand models tied to the code by differential correspondence on boundary-exhaustive inputs.",
@@ -28,5 +29,44 @@ PROPS = {
                 "encode_number, decode_number<1,2,4,8,16>, sanitize_uint; non-trivial = distinct case whose result is not `none`",
         "trusted": ["clvmr Allocator::new_number (external crate) is compared with canonNat on every u64 case, not verified",
                     "open statements (not claimed as theorems yet): encode_number for negative inputs, decode_number value/padding — correspondence only"],
+    },
+    "C01": {
+        "extractors": ["ladders", "opcodes", "flags", "constants"],
+        "harness": "C01",
+        "theorems": ["ChiaModel.C01.opcode_whitelist", "ChiaModel.C01.opcode_constants", "ChiaModel.C01.parseOpcode_spec",
+                     "ChiaModel.C01.validateConditions_iff"],
+        "gen_theorems": ["ChiaModel.C01.opcode_whitelist", "ChiaModel.C01.opcode_constants"],
+        "open": ["C01_refines: parseSpends = ok s <-> Accepts (order-free declarative rules) and s = summary (DESIGN 6, C01) - the per-condition argument grammar and the per-spend folds are so far tied to the rules only through the executable model's own definitions"],
+        "trivial": r"^(REJECT|bad-op|bad-tree)",
+        "level": "other",
+        "rule": "generator-output trees through parse_spends<EmptyVisitor|MempoolVisitor>: (a) single-condition sweep: every one-byte opcode 0..255, 30 two-byte opcodes, empty and 3-byte opcode x 32 argument-list shapes x 4 (quick) / 16 (thorough) flag subsets; (b) random bundles of 0-6 spends from pools of 6 ids / 18 amounts / 9 messages / 3 valid + 3 invalid keys, 0-14 conditions per spend over all 35 opcodes plus unknown, with per-argument shape damage (missing, extra, pair-for-atom, non-nil terminator, 31/33-byte hashes, 1025-byte messages, negative / redundant-zero / 2^32 / 2^64 integers), engineered matching announcements, messages, ephemeral parents, double spends, singleton-shaped spends; random flag subsets of {DONT_VALIDATE_SIGNATURE, NO_UNKNOWN_CONDS, STRICT_ARGS_COUNT, COST_CONDITIONS, LIMIT_SPENDS}, both visitors, cost limits small and large; (c) 5999/6000/6001 spends with and without LIMIT_SPENDS. non-trivial = distinct accepted case",
+        "level_text": "Model + correspondence + partial proofs. A complete executable Lean model of parse_spends (argument grammar of all 35 opcodes, two-byte opcodes, sanitizers, per-spend folds, both visitors, deferred validation, cost countdown) is compared with the real parse_spends on every generated tree: verdict (accept / reject / cost-exceeded) and the full OwnedSpendBundleConditions summary. Proved in Lean: the opcode whitelist extracted from the source equals the documented set; parse_opcode's recognition rule; validate_conditions accepts iff the declarative cross-spend predicates hold (matching announcement / concurrent spend / ephemeral / message counterparts). The full refinement of the parser to an order-free declarative rule set is still open, hence level `other`, not `proof`.",
+        "level_note": "Trusted: Lean kernel (for the proved part); hand model = code only on the cases run; blst key validity enters as a per-case oracle (list of valid keys computed by the harness with chia_bls); signature offered is the identity, so BLS verification reduces to `no pairs collected`.",
+        "technique": "Lean 4 executable model + differential correspondence; Lean theorems for opcode recognition and deferred validation",
+    },
+    "C02": {
+        "extractors": ["ladders", "opcodes", "flags", "constants"],
+        "harness": "C02",
+        "theorems": ["ChiaModel.C02.conservation", "ChiaModel.C02.accepted_invariants", "ChiaModel.C11.canon_unique",
+                     "ChiaModel.C11.coinIdAmount_canon"],
+        "gen_theorems": ["ChiaModel.C11.coinIdAmount_canon"],
+        "open": ["puzzle hash = tree hash of the revealed puzzle for run_block_generator2 / run_spendbundle (needs the native-loop model of C07/C08)"],
+        "trivial": r"^(REJECT|bad-op|bad-tree)",
+        "rule": "C01's generator biased to value flow: amounts from {0,1,2^32,2^63,2^64-1,...} so sums cross 2^64, many CREATE_COINs per spend with repeated (puzzle hash, amount), repeated coins, RESERVE_FEE near the excess; on every accepted implementation result the harness additionally asserts the five facts directly (totals are sums, fee+additions<=removals, distinct coin ids, distinct outputs per spend, coin id = sha256(parent|ph|canonical amount) computed independently) and marks the line if one fails. non-trivial = distinct accepted case",
+        "level_text": "Proof: for every tree whose atoms are byte strings, every flag set, both visitors and every cost limit, an accepting run of the parse_spends model satisfies: additions + reserve fee <= removals; removal/addition totals and the condition cost are the sums over the listed spends and created coins; coin ids pairwise distinct; no spend creates two coins with equal (puzzle hash, amount); every coin id = SHA-256(parent | puzzle hash | minimal big-endian amount). Proved by induction over the spend and condition loops with a bundle invariant (unbounded sizes, Nat arithmetic so no wrap-around is assumed away: amounts are < 2^64 by the sanitizer theorem). The model is tied to the code by correspondence on generated trees.",
+        "level_note": "Trusted: Lean kernel + standard axioms; model = code only on the cases run (summary fields incl. coin ids and totals are compared on every case); u128 accumulators of the Rust code are modelled as unbounded Nat - overflow would need > 2^64 spends. Entry points other than parse_spends reach the same process_single_spend; their own loops are covered under C07/C08.",
+    },
+    "C04": {
+        "extractors": ["ladders", "opcodes", "flags", "constants"],
+        "harness": "C04",
+        "theorems": ["ChiaModel.C04.limit_exact", "ChiaModel.C04.cost_le_limit", "ChiaModel.C04.cost_is_table_sum",
+                     "ChiaModel.C04.table_values", "ChiaModel.C04.preCharge_table", "ChiaModel.C04.unknown_cost_closed_form",
+                     "ChiaModel.C04.unknown_cost_fn"],
+        "gen_theorems": ["ChiaModel.C04.table_values", "ChiaModel.C04.unknown_cost_closed_form", "ChiaModel.C04.unknown_cost_fn"],
+        "open": ["byte cost / CLVM execution cost / interned-size cost bookkeeping of run_block_generator(2) and run_spendbundle (external CLVM cost values): built with C07/C08"],
+        "trivial": r"^(REJECT|bad-op|bad-tree)$",
+        "rule": "C01's generator with cost emphasis: every accepted case is re-run at limit = reported cost (must accept with the identical summary) and at cost-1 (must fail with cost-exceeded); all 65 536 opcodes through compute_unknown_condition_cost; SOFTFORK arguments {0,1,2^32-1,2^32}; COST_CONDITIONS on/off. non-trivial = distinct accepted case or distinct non-zero table slot",
+        "level_text": "Proof: (1) limit_exact - for every tree, flags and limit L, if the parse_spends model accepts reporting cost c then c <= L, it accepts with the identical result at limit c, and at every limit below c it fails with cost-exceeded (compositional `Shift` lemma over all guarded subtractions; unbounded). (2) cost_is_table_sum - the reported cost, the condition-cost sub-total and the per-spend condition costs equal the sums prescribed by the cost table (per-spend charge + per-condition pre-charge + SOFTFORK/two-byte extra). (3) the table constants regenerated from opcodes.rs have the documented values and the 256-slot two-byte table equals trunc3(100*17^k/16^k) (kernel computation over exact arithmetic).",
+        "level_note": "Trusted: Lean kernel + standard axioms; translator for the constants and the const-fn table algorithm (pinned skeleton, re-evaluated; cross-checked against compute_unknown_condition_cost on all 65 536 opcodes every run); model = code on the cases run. CLVM execution cost and byte cost are outside parse_spends and not covered by these theorems yet.",
     },
 }
